@@ -114,6 +114,15 @@ CHECKS = {
         note=LEVEL_NOTE_COMMON + "Axioms: none. HashMap iteration order is removed by sorting; order-sensitive answers on HashMap are outside the property.",
         technique="Coq proof (permutation invariance, purity of the evaluator) + cross-container / repetition / rebuild / clone differential runs",
         design="§7 C12"),
+    "C03": dict(
+        text="Theorems (Coq, every table, every data value, every failure pattern, every iteration order of the hash map): add on a present id and remove / update on an absent id fail with "
+             "the table EQUAL and nothing evaluated or fired, otherwise they act as map insert / delete / replace; evaluating a registered state fires exactly its current action once when the "
+             "causaloid evaluates true, nothing when false, and errors (nothing fired) when the evaluation fails, also erroring when the fired action fails; evaluating all states along any "
+             "iteration order: success = every state evaluated once and exactly the actions of the true states fired; failure = a successful prefix plus the failing state. The extracted "
+             "checker (proved sound, and proved to accept the model) validates every observed operation, accepting an eval_all outcome iff SOME iteration order of the registered ids yields it.",
+        note=LEVEL_NOTE_COMMON + "Axioms: none. States / actions are pooled fn items of the harness with observable firing; HashMap iteration order is existentially quantified.",
+        technique="Coq proof (map laws, induction over the iteration order, checker soundness) + proved checker applied to every observed operation",
+        design="§7 C03"),
 }
 
 ALL = [f"C{n:02d}" for n in range(1, 20)]
